@@ -67,7 +67,7 @@ def cases(tier, seed):
                             "m": m, "n": n, "r": r, "K": K, "idx": idx, "seed": seed})
                 idx += 1
     # larger and extreme-aspect shapes with a shorter budget sweep
-    big = [(12, 7), (7, 12), (16, 3), (3, 16)] if tier == "quick" else [(12, 7), (7, 12), (10, 10), (16, 3), (3, 16), (20, 2), (2, 20), (14, 14), (18, 9), (9, 18), (24, 4)]
+    big = [(12, 7), (7, 12), (17, 3), (3, 18), (20, 20), (33, 4)] if tier == "quick" else [(12, 7), (7, 12), (10, 10), (16, 3), (3, 16), (20, 2), (2, 20), (14, 14), (18, 9), (9, 18), (24, 4), (33, 33), (17, 17), (40, 6), (6, 65)]
     for (m, n) in big:
         for r in sorted({min(m, n), min(m, n) - 1, 1}):
             for k in range(1 if tier == "quick" else 2):
